@@ -218,6 +218,30 @@ lemma(
 )
 
 
+def lemma_uuid_parse_helpers(data, offset):
+    # the two field parsers used by the PDU field specs: a 16-bit UUID at an offset, and "the rest of the buffer"
+    end, u = core.UUID.parse_uuid_2(data, offset)
+    assert end == offset + 2
+    assert u.to_bytes() == data[offset : offset + 2]
+    n, w = core.UUID.parse_uuid(data, offset)
+    assert n == len(data)
+    assert w.to_bytes() == data[offset:]
+
+
+lemma(
+    'uuid_parse_helpers',
+    lemma_uuid_parse_helpers,
+    prop='C18',
+    params=dict(data=Bytes, offset=Int),
+    ghost=UUID_WORLD,
+    requires=lambda data, offset, ghost: [0 <= offset, offset + 2 <= len(data), len(data) - offset == 2 or len(data) - offset == 4 or len(data) - offset == 16,
+                                          uuid_world_ok(ghost)],
+    uses=UUID_USES,
+    inline=UUID_INLINE,
+    native_setup=uuid_native_setup,
+)
+
+
 # ---------------------------------------------------------------------------
 # sdp.DataElement / DataElementParser (Core Vol 3 Part B 3.1-3.3; oracle in spec/sdp.py)
 # ---------------------------------------------------------------------------
